@@ -214,6 +214,8 @@ where
         let dist_ptr = dist.as_mut_ptr();
 
         for u in sources {
+            assert!(u < order, "u = {u} isn't in the digraph");
+
             unsafe { *dist_ptr.add(u) = 0 };
 
             heap.push((Reverse(0), (None, u)));
@@ -462,6 +464,8 @@ where
         let dist_ptr = self.dist.as_mut_ptr();
 
         for (x, w) in self.digraph.out_neighbors_weighted(v) {
+            assert!(x < self.dist.len(), "x = {x} isn't in the digraph");
+
             let distance = distance + w;
             let dist_x = unsafe { dist_ptr.add(x) };
 
